@@ -314,16 +314,36 @@ func in(list []string, s string) bool {
 // Status codes heuristically cacheable by default (RFC 7231 section 6.1).
 var cacheableByDefault = []int{200, 203, 204, 206, 300, 301, 404, 405, 410, 414, 501}
 
+// splitDirectives splits a Cache-Control value (RFC 7234 section 5.2: 1#cache-directive,
+// cache-directive = token [ "=" ( token / quoted-string ) ]) at the commas that are not
+// inside a quoted-string; inside one, a backslash quotes the next character.
+func splitDirectives(v string) []string {
+	var out []string
+	start, inQ := 0, false
+	for i := 0; i < len(v); i++ {
+		switch {
+		case inQ && v[i] == '\\':
+			i++
+		case v[i] == '"':
+			inQ = !inQ
+		case v[i] == ',' && !inQ:
+			out = append(out, v[start:i])
+			start = i + 1
+		}
+	}
+	return append(out, v[start:])
+}
+
 // Storable implements RFC 7234 section 3 for a shared cache, for responses to
 // GET without Authorization, given that the status code is understood.
 func Storable(status int, cacheControl string, hasExpires bool) bool {
 	dirs := map[string]bool{}
-	for _, d := range strings.Split(cacheControl, ",") {
+	for _, d := range splitDirectives(cacheControl) {
 		d = strings.TrimSpace(d)
 		if i := strings.IndexByte(d, '='); i >= 0 {
 			d = d[:i]
 		}
-		dirs[strings.ToLower(d)] = true
+		dirs[strings.ToLower(strings.TrimSpace(d))] = true
 	}
 	if dirs["no-store"] || dirs["private"] {
 		return false
